@@ -189,8 +189,8 @@ var h1Trailers = [][2]string{{"X-Checksum", "abc"}, {"X-T", "v"}, {"Expires", "0
 
 // GenH1Spec draws a well-formed message (Valid) in one of the framings in scope.
 // H1Body / H1Chunks: exported for the end-to-end generators.
-func H1Body(r *core.Rand, max int) []byte  { return h1Body(r, max) }
-func H1Chunks(r *core.Rand, n int) []int { return h1Chunks(r, n) }
+func H1Body(r *core.Rand, max int) []byte { return h1Body(r, max) }
+func H1Chunks(r *core.Rand, n int) []int  { return h1Chunks(r, n) }
 
 func GenH1Spec(r *core.Rand, req bool, maxBody int) *H1Spec {
 	s := &H1Spec{Req: req, Proto: "HTTP/1.1", Valid: true}
@@ -331,7 +331,7 @@ func (s *H1Spec) weird(r *core.Rand) string {
 		}
 	case 15:
 		s.ChunkDeco = func(i int, sz string) string {
-			return r.Pick("0", "00", "", "000000000000")+sz + r.Pick("", ";ext=1", " ", ";", " ;x", "\t")
+			return r.Pick("0", "00", "", "000000000000") + sz + r.Pick("", ";ext=1", " ", ";", " ;x", "\t")
 		}
 	case 16:
 		s.ChunkDeco = func(i int, sz string) string { return strings.ToUpper(sz) }
